@@ -283,6 +283,10 @@ class ExprMixin:
             h = self.ext.get("pow")
             if h: return h(self, [a, b], {}, st, n)
             raise Unsupported("pow")
+        if isinstance(op, ast.BitXor):
+            h = self.ext.get("bitxor")
+            if h: return h(self, a, b, st)
+            raise Unsupported("bit xor")
         if isinstance(op, (ast.FloorDiv, ast.Mod)):
             ca, cb = self.concrete(a), self.concrete(b)
             if ca is not None and cb is not None and cb != 0:
